@@ -41,6 +41,19 @@ def make(spec, cls=None):
     any internal bookkeeping is populated), and it is then reindexed to the span under test."""
     from fsic.core import VectorContainer
     other = HISTORY['other']
+    if other == 'as-list':
+        # built over a plain list of the very same labels, every label looked up, then reindexed onto the typed span: the result
+        # addresses labels as its *new* span does
+        c = (cls or VectorContainer)(list(spec.make()))
+        c.add_variable('X', np.arange(spec.n, dtype=float) - 50)
+        c.add_variable('K', np.arange(spec.n, dtype=np.int64) - 70)
+        for lab in list(c.span):
+            c['X', lab]
+            c['K', lab:lab]
+        c = c.reindex(spec.make())
+        c.X = [float(i) for i in range(spec.n)]
+        c.K = [100 + i for i in range(spec.n)]
+        return c
     if other is not None:
         c = (cls or VectorContainer)(other.make())
         c.add_variable('X', np.arange(other.n, dtype=float) - 50)
@@ -288,11 +301,18 @@ def run_shard(ctx):
         ctx.seen('span_kinds', spec.kind)
         check_spec(ctx, spec)
         # the same checks on a container that reached this span through lookups on a shifted span + reindex()
-        others = [o for o in spans.catalogue(spec.n + 1, origin=2) + spans.catalogue(max(spec.n - 1, 1), origin=-1) if o.kind == spec.kind]
+        others = [o for o in spans.catalogue(spec.n + 1, origin=2) + spans.catalogue(max(spec.n - 1, 1), origin=-1) + spans.catalogue(spec.n, origin=1) + spans.catalogue(spec.n, origin=2) if o.kind == spec.kind]
         if others:
             HISTORY['other'] = others[(si + ctx.seed) % len(others)]
             try:
                 ctx.count('reindexed_history_specs')
+                check_spec(ctx, spec)
+            finally:
+                HISTORY['other'] = None
+        if not isinstance(spec.make(), list):
+            HISTORY['other'] = 'as-list'
+            try:
+                ctx.count('relisted_history_specs')
                 check_spec(ctx, spec)
             finally:
                 HISTORY['other'] = None
